@@ -34,7 +34,10 @@ class ReplicaCheck:
             r, n = job
             vlib.build_harness(r["binary"])
             out = os.path.join(work, f"rectrace-{r['binary']}-{abs(hash(r.get('cfg','') + r.get('in','')))%99999}.ndjson")
-            env = dict(os.environ, VERIF_RECORD_DIR=recdir)
+            # scripted histories (a mode other than "random") are recorded apart: the quick tier keeps all of them
+            rd = recdir if r.get("mode", "random") == "random" else os.path.join(recdir, "scripted")
+            os.makedirs(rd, exist_ok=True)
+            env = dict(os.environ, VERIF_RECORD_DIR=rd)
             # RECORD entries may also name a scripted behaviours file: mode "replay" with "in"
             cmd = [vlib.harness_bin(r["binary"]), r.get("mode", "random"), "-out", out, "-seed", str(seed * 31 + 7),
                    "-n", str(n), "-len", str(r.get("len", 30)), "-cfg", r.get("cfg", "")]
@@ -48,7 +51,7 @@ class ReplicaCheck:
 
         with ThreadPoolExecutor(max_workers=6) as ex:
             done = list(ex.map(one, jobs))
-        recs = sorted(glob.glob(os.path.join(recdir, "*.rec")))
+        recs = sorted(glob.glob(os.path.join(recdir, "scripted", "*.rec"))) + sorted(glob.glob(os.path.join(recdir, "*.rec")))
         log(f"[record] {len(recs)} histories recorded from drivers {sorted(set(done))}")
         return recs
 
@@ -102,6 +105,9 @@ class ReplicaCheck:
             seen, keep = {}, []
             for r in recs:
                 d = os.path.basename(r).split("-")[1]
+                if os.path.basename(os.path.dirname(r)) == "scripted":
+                    keep.append(r)
+                    continue
                 seen[d] = seen.get(d, 0) + 1
                 if seen[d] <= 2:
                     keep.append(r)
